@@ -514,14 +514,14 @@ Proof.
     destruct (new_index leqb cidx) as [cidx'|e] eqn:Eni; cbn [res_bind]; [|reflexivity].
     apply new_index_ok in Eni. subst cidx'.
     pose proof (first_block_1d_hd _ _ _ Hok) as Hfb.
-    destruct Hok as (Hf & Hnc & Hr & Hne). cbn [ax_name].
+    destruct Hok as (Hf & Hnc & Hr & Hne). unfold rows_of in Hr. cbn [ax_name].
     destruct data as [|c0 data0].
     + rewrite Hnc. cbn [length Z.of_nat Z.eqb orb]. rewrite Bool.orb_true_r. rewrite Hfb.
       assert (cidx = []) by (destruct cidx; [reflexivity|cbn in *; lia]). subst cidx. reflexivity.
     + rewrite Hr, Hnc. cbn [length] in Hdr |- *.
-      replace (Z.of_nat 1 =? 0) with false by reflexivity.
+      replace (1 =? 0) with false by reflexivity.
       replace (Z.of_nat (S (length data0)) =? 0) with false by lia. cbn [orb].
-      replace (Z.of_nat 1 =? 1) with true by reflexivity. cbn [andb].
+      replace (1 =? 1) with true by reflexivity. cbn [andb].
       assert (Hv : values_row0 rdt t' = (row_dtype rdt (map fst (c0 :: data0)), concat (map snd (c0 :: data0)))).
       { unfold values_row0. rewrite Hf, concat_firstn1 by exact Hdr. reflexivity. }
       assert (Hms : mk_series (values_row0 rdt t') (AxMany cidx) (hd (mf_name f) ridx) =
@@ -535,7 +535,7 @@ Proof.
     destruct (new_index leqb ridx) as [ridx'|e] eqn:Eni; cbn [res_bind]; [|reflexivity].
     apply new_index_ok in Eni. subst ridx'.
     pose proof (first_block_1d_hd _ _ _ Hok) as Hfb.
-    destruct Hok as (Hf & Hnc & Hr & Hne). cbn [ax_name].
+    destruct Hok as (Hf & Hnc & Hr & Hne). unfold rows_of in Hr. cbn [ax_name].
     destruct (take_positions_single _ _ _ Ecols) as (c0 & _ & ->).
     destruct data as [|[d v] [|? ?]]; try (cbn in Hdl; discriminate).
     inversion Hdr as [|? ? Hvl _]; subst. cbn [snd] in Hvl.
